@@ -1,4 +1,5 @@
 import Pymeeus.Refine.Interpolation
+import Pymeeus.Refine.Root
 /-
 C12 — Interpolation reproduces polynomials; roots and extrema lie where asked.
 
@@ -165,5 +166,104 @@ theorem reproduces_polynomial (xs ys : List ℚ) (o : Interp) (p : ℚ[X])
     split_ifs at hc
     injection hc with hc
     left; rw [← hc, hpoly]
+
+/-! ### Refusals -/
+
+/-- "refuses abscissae outside the table … with ValueError": an abscissa at least the tolerance beyond either end
+    of the table is refused by `__call__` and by `derivative`. -/
+theorem rejects_outside (xs ys : List ℚ) (o : Interp) (t : ℚ)
+    (hset : GenQ.Interpolation.set TOL [.list xs, .list ys] = .ok o)
+    (ht : t + TOL ≤ xfirst o ∨ xlast o + TOL ≤ t) :
+    call o t = .error .valueError ∧ GenQ.Interpolation.derivative o t = .error .valueError := by
+  obtain ⟨wf, htol, _, _⟩ := set_two_lists_ok TOL_pos TOL_le_one hset
+  have hout : t < xfirst o ∨ xlast o < t := by
+    rcases ht with h | h
+    · left; linarith [TOL_pos]
+    · right; linarith [TOL_pos]
+  refine ⟨?_, derivative_outside wf hout⟩
+  rw [call_eq wf]
+  have hnone : node_hit o.tol t o.x o.y = none := by
+    rw [node_hit_none_iff o.tol t o.x o.y wf.len, htol]
+    intro i hi
+    obtain ⟨b1, b2⟩ := nodes_between wf hi
+    rw [not_lt]
+    rcases ht with h | h
+    · rw [abs_of_nonpos (by linarith [TOL_pos])]; linarith
+    · rw [abs_of_nonneg (by linarith [TOL_pos])]; linarith
+  rw [hnone]
+  simp only [hout, if_true]
+
+/-- "…and duplicated abscissae with ValueError": two abscissae closer than the tolerance. -/
+theorem rejects_duplicates (tol : ℚ) (xs ys : List ℚ) (i j : ℕ) (hij : i < j)
+    (hj : j < min xs.length ys.length) (hclose : |nodes xs i - nodes xs j| < tol) :
+    GenQ.Interpolation.set tol [.list xs, .list ys] = .error .valueError := by
+  rw [set_two_lists]
+  split_ifs with hl
+  · rfl
+  · unfold finish
+    have hd : has_dup tol (xs.take (min xs.length ys.length)) = true := by
+      apply has_dup_true_of_close hij (by simpa using hj)
+      have g : ∀ k, k < min xs.length ys.length → (xs.take (min xs.length ys.length)).getD k 0 = nodes xs k := by
+        intro k hk
+        unfold nodes
+        simp only [List.getD_eq_getElem?_getD, List.getElem?_take, hk, if_true]
+      rw [g i (by omega), g j hj]; exact hclose
+    rw [if_pos hd]
+
+/-- The arity rules of `set`: one number, two or three positional numbers, a number next to a list, or fewer
+    than two points are refused with ValueError; other objects with TypeError. -/
+theorem arity_rules (tol v w u : ℚ) (l : List ℚ) :
+    GenQ.Interpolation.set tol [.num v] = .error .valueError ∧
+    GenQ.Interpolation.set tol [.num v, .num w] = .error .valueError ∧
+    GenQ.Interpolation.set tol [.num v, .num w, .num u] = .error .valueError ∧
+    GenQ.Interpolation.set tol [.list l, .num v] = .error .valueError ∧
+    GenQ.Interpolation.set tol [.num v, .list l] = .error .valueError ∧
+    GenQ.Interpolation.set tol [.other] = .error .typeError ∧
+    GenQ.Interpolation.set tol [.list l, .other] = .error .typeError ∧
+    GenQ.Interpolation.set tol [.list [v]] = .error .valueError ∧
+    GenQ.Interpolation.set tol [.list [v], .list l] = .error .valueError ∧
+    GenQ.Interpolation.set tol [.num v, .num w, .num u, .other] = .error .typeError := by
+  refine ⟨rfl, rfl, rfl, rfl, rfl, rfl, rfl, rfl, ?_, ?_⟩
+  · rw [set_two_lists]
+    have : min [v].length l.length < 2 := by simp
+    rw [if_pos this]
+  · rw [set_many]; simp [PyArg.isNum]
+
+/-! ### Root finding -/
+
+/-- "Root finding on [xl, xh] returns an abscissa inside [xl, xh] at which the interpolant vanishes (to the
+    object's tolerance)" — partial correctness: whenever `root(xl, xh)` returns `v` (limits in either order, clamped
+    to the table; the requested interval meets the table), `v` lies between the limits and inside the table, and
+    `|I(v)| ≤ tol` for the value `I(v)` that `__call__` returns at `v`.  (Whether it returns is the convergence of
+    the Newton / false-position iteration, which no theorem here covers.) -/
+theorem root_post (xs ys : List ℚ) (o : Interp) (xl xh v : ℚ) (m : Int)
+    (hset : GenQ.Interpolation.set TOL [.list xs, .list ys] = .ok o)
+    (hnd : ¬ (xl = 0 ∧ xh = 0))
+    (hmeet : max (min xl xh) (xfirst o) ≤ min (max xl xh) (xlast o))
+    (hr : root o xl xh m = .ok v) :
+    (min xl xh ≤ v ∧ v ≤ max xl xh) ∧ (xfirst o ≤ v ∧ v ≤ xlast o) ∧ ∃ y, call o v = .ok y ∧ |y| ≤ TOL := by
+  obtain ⟨wf, htol, _, _⟩ := set_two_lists_ok TOL_pos TOL_le_one hset
+  obtain ⟨A, B, hlim⟩ := root_ok_limits hr
+  obtain ⟨hA, hB⟩ := (root_limits_spec wf hlim).2 hnd
+  have hAB : A ≤ B := by rw [hA, hB]; exact hmeet
+  obtain ⟨r1, r2, y, hy, hyt⟩ := root_post_core (by rw [htol]; exact TOL_pos) hlim hAB hr
+  rw [htol] at hyt
+  refine ⟨⟨?_, ?_⟩, ⟨?_, ?_⟩, y, hy, hyt⟩
+  · exact le_trans (le_max_left _ _) (hA ▸ r1)
+  · exact le_trans (hB ▸ r2) (min_le_left _ _)
+  · exact le_trans (le_max_right _ _) (hA ▸ r1)
+  · exact le_trans (hB ▸ r2) (min_le_right _ _)
+
+/-- `root()` without limits searches the whole table. -/
+theorem root_post_default (xs ys : List ℚ) (o : Interp) (v : ℚ) (m : Int)
+    (hset : GenQ.Interpolation.set TOL [.list xs, .list ys] = .ok o) (hr : root o 0 0 m = .ok v) :
+    (xfirst o ≤ v ∧ v ≤ xlast o) ∧ ∃ y, call o v = .ok y ∧ |y| ≤ TOL := by
+  obtain ⟨wf, htol, _, _⟩ := set_two_lists_ok TOL_pos TOL_le_one hset
+  obtain ⟨A, B, hlim⟩ := root_ok_limits hr
+  obtain ⟨hA, hB⟩ := (root_limits_spec wf hlim).1 ⟨rfl, rfl⟩
+  have hfl : xfirst o ≤ xlast o := (nodes_between wf (i := 0) (by have := wf.two; omega)).2
+  obtain ⟨r1, r2, y, hy, hyt⟩ := root_post_core (by rw [htol]; exact TOL_pos) hlim (by rw [hA, hB]; exact hfl) hr
+  rw [htol] at hyt
+  exact ⟨⟨hA ▸ r1, hB ▸ r2⟩, y, hy, hyt⟩
 
 end Pymeeus.C12
